@@ -590,9 +590,13 @@ class LinEval:
             return None
         names = []
         for j, el in enumerate(idx.elts):
-            if not (isinstance(el, ast.Subscript) and const_number(el.slice) == j):
+            # self.X[j]  or, after `rows, cols = self.X`, the j-th component of self.X
+            if isinstance(el, ast.Subscript) and const_number(el.slice) == j:
+                names.append(attr_chain(el.value))
+            elif is_component(el) and el.args[1].value == j:
+                names.append(attr_chain(el.args[0]))
+            else:
                 return None
-            names.append(attr_chain(el.value))
         if names[0] != names[1] or not names[0] or not names[0].startswith("self."):
             return None
         ai = self.attrs.get(names[0].split(".", 1)[1])
